@@ -2,6 +2,8 @@
 """Render the table of seeded changes (seeded/*/meta.json + seeded/RESULTS.json) as markdown."""
 import json, os, glob, re
 res = json.load(open("/verif/seeded/RESULTS.json"))
+rec = json.load(open("/verif/seeded/RECONFIRM.json")) if os.path.exists("/verif/seeded/RECONFIRM.json") else {}
+HEADTXT = {"still-breaks": "fails", "demo-no-longer-fails": "passes (the demonstrated input is harmless now)", "does-not-apply": "-", "demo-fails-on-clean-head": "outdated (fails on the repaired tree too)", "no-demo": "-"}
 rows = []
 for d in sorted(glob.glob("/verif/seeded/C*-*")):
     name = os.path.basename(d)
@@ -21,6 +23,6 @@ for d in sorted(glob.glob("/verif/seeded/C*-*")):
             else:
                 parts.append("%s: no-failing-input-found (proof or correspondence broken)" % chk)
         outcome = "; ".join(parts)
-    rows.append("| %s | %s | %s |" % (name, summ.replace("|", "\\|"), outcome.replace("|", "\\|")))
-print("| seeded change | what it is | reported by (quick tier) |\n|---|---|---|")
+    rows.append("| %s | %s | %s | %s |" % (name, summ.replace("|", "\\|"), HEADTXT.get(rec.get(name, {}).get("status"), "?"), outcome.replace("|", "\\|")))
+print("| seeded change | what it is | its own demo at HEAD with the change | reported by (quick tier) |\n|---|---|---|---|")
 print("\n".join(rows))
